@@ -369,6 +369,7 @@ Definition oerr_eqb (a b : option err) : bool :=
 
 Record ccase := mkcase {
   c_dlsup : bool;              (* the transport supports read deadlines *)
+  c_ws : bool;                 (* the session uses WebSocket framing: its closing element is <close/> *)
   c_kinds : list kind;         (* the actors *)
   c_sched : list nat;          (* the realised schedule: one entry per release of an actor *)
   x_wire : list item;          (* observed: what the peer received, in order *)
@@ -378,6 +379,11 @@ Record ccase := mkcase {
   x_tag : bytes                (* observed: the bytes of the closing tag ([] if none was written) *)
 }.
 
+(* The closing element in both directions: IClose on the wire and PClose from
+   the peer stand for </stream:stream> on a TCP session and for the framing
+   <close/> element on a WebSocket-subprotocol session. *)
+Definition close_bytes (ws : bool) : bytes := if ws then sc_close_ws_tag else sc_close_tag.
+
 Definition results (s : state) (n : nat) : list (option err) := map (fun i => a_res (s_a s i)) (seq 0 n).
 
 Definition case_ok (c : ccase) : bool :=
@@ -386,7 +392,7 @@ Definition case_ok (c : ccase) : bool :=
   list_eqb item_eqb (o_buf (s_o s)) (x_buf c) &&
   list_eqb oerr_eqb (results s (length (c_kinds c))) (x_res c) &&
   Bool.eqb (o_cl (s_o s)) (x_ocl c) && Bool.eqb (i_cl (s_i s)) (x_icl c) &&
-  bytes_eqb (x_tag c) (if existsb is_close (o_wire (s_o s)) then sc_close_tag else []).
+  bytes_eqb (x_tag c) (if existsb is_close (o_wire (s_o s)) then close_bytes (c_ws c) else []).
 
 Fixpoint failing {A} (ok : A -> bool) (i : nat) (l : list A) : list nat :=
   match l with
